@@ -756,9 +756,11 @@ func work(ctx *runner.Ctx) {
 		{Kind: "uint", Bits: 100}, {Kind: "int", Bits: 65},
 		{Kind: "array", Bits: 8, N: 2, ElKind: "uint"}, {Kind: "array", Bits: 8, N: 3, ElKind: "uint"}, {Kind: "array", Bits: 8, N: 0, ElKind: "uint"},
 		{Kind: "array", Bits: 16, N: 2, ElKind: "uint"},
+		// slices whose size was fixed earlier (instantiated from other input), possibly given fewer elements now
+		{Kind: "slice", Bits: 8, N: 2, ElKind: "uint"}, {Kind: "slice", Bits: 8, N: 3, ElKind: "uint"},
 	}
 	if ctx.Quick() {
-		pool = []TDesc{pool[0], pool[1], pool[2], pool[4], pool[7], pool[8], pool[9], pool[11], pool[12], pool[13]}
+		pool = []TDesc{pool[0], pool[1], pool[2], pool[4], pool[7], pool[8], pool[9], pool[11], pool[12], pool[13], pool[15]}
 	}
 	memberVals := func(t TDesc) [][]string {
 		switch t.Kind {
